@@ -182,6 +182,20 @@ of_status_t	of_ldpc_staircase_set_fec_parameters (of_ldpc_staircase_cb_t*	ofcb,
 			params->N1))
 		goto error;
 	}
+	if (params->nb_source_symbols == 0 || params->encoding_symbol_length == 0)
+	{
+		OF_PRINT_ERROR(("of_ldpc_staircase_set_fec_parameters: ERROR, invalid nb_source_symbols (%d) or encoding_symbol_length (%d) parameter, must be at least 1\n",
+				params->nb_source_symbols, params->encoding_symbol_length))
+		goto error;
+	}
+	if (params->prng_seed < 1 || params->prng_seed > 0x7FFFFFFE)
+	{
+		/* of_rfc5170_srand() ignores such a seed: the matrix would depend on whatever PRNG
+		 * state the previous session left behind. */
+		OF_PRINT_ERROR(("of_ldpc_staircase_set_fec_parameters: ERROR, invalid prng_seed value (%d), must be in 1..2^31-2\n",
+				params->prng_seed))
+		goto error;
+	}
 	if ((ofcb->nb_source_symbols = params->nb_source_symbols) > ofcb->max_nb_source_symbols)
 	{
 		OF_PRINT_ERROR(("of_ldpc_staircase_set_fec_parameters: ERROR, invalid nb_source_symbols parameter (got %d, maximum is %d)\n",
